@@ -447,6 +447,36 @@ def run_case(desc):
         except Exception as e:
             items.append(siglab.exc_item('ROUNDTRIP_EXC', e, path='P3',
                                          what='v1'))
+    # ---- P4: a row written by an old release (version-1 signature, pickle
+    # protocol 0 stored as text) is read through the Version model; names
+    # outside ASCII must come back unchanged
+    if v1_ok and text is not None:
+        try:
+            from django_evolution.compat.py23 import pickle_dumps
+            p4 = psig.clone()
+            renamed = 0
+            for asig in p4.app_sigs:
+                for msig in asig.model_sigs:
+                    if renamed < 2:
+                        msig.table_name = '%s_%s' % (
+                            msig.table_name or 't',
+                            ['\u00e9t\u00e9', 'na\u00efve\u00ff'][renamed])
+                        renamed += 1
+            raw = pickle_dumps(p4.serialize(sig_version=1))
+            v = Version(signature=raw)
+            v.save()
+            v4 = Version.objects.get(pk=v.pk)
+            stats['legacy_rows_read'] = 1
+            stats['legacy_rows_non_ascii'] = int(renamed > 0)
+            _eq, e1, e2, d1, d2 = siglab.sig_equal(p4, v4.signature)
+            stats['roundtrips'] = stats.get('roundtrips', 0) + 1
+            if not (e1 and e2):
+                items.append({'type': 'ROUNDTRIP_DIFF', 'path': 'P4',
+                              'diff': (d1 or d2)[:300]})
+            Version.objects.filter(pk=v.pk).delete()
+        except Exception as e:
+            items.append(siglab.exc_item('ROUNDTRIP_EXC', e, path='P4',
+                                         what='legacy pickled row'))
     for it in items:
         it['features'] = feats
     key = text or S.canon(desc)
